@@ -98,8 +98,10 @@ type unit struct {
 // functions of the code under test that get a simulation seam (a nil-by-default hook variable the harness may
 // set; inserted into the scratch copy by the instrumenter, never into /repo)
 var (
-	seams    = []string{"lib/discov/internal:NewClient"}
-	argSeams = []string{"lib/discov/internal:stateWatcher.watch"}
+	seams = []string{"lib/discov/internal:NewClient", "lib/logx:gzipFile"}
+	// packages that are not rewritten (their goroutines are adopted as tasks when they reach the runtime) but carry a seam
+	seamOnlyPkgs = []string{"lib/logx"}
+	argSeams     = []string{"lib/discov/internal:stateWatcher.watch"}
 	// packages without synchronisation of their own whose loops get a scheduling point per iteration, so that
 	// two tasks inside the same pure computation can be interleaved (state shared through a receiver)
 	preemptPkgs = []string{"lib/codec"}
@@ -137,7 +139,7 @@ func prepare(id string, instrument bool) (string, []unit) {
 	}
 	if instrument {
 		out, err := run(scratch, goEnv(), filepath.Join(verifDir, "bin", "instr"), "-dir", scratch, "-pkgs", strings.Join(instrPkgs, ","),
-			"-seams", strings.Join(seams, ","), "-argseams", strings.Join(argSeams, ","), "-preempt", strings.Join(preemptPkgs, ","))
+			"-seams", strings.Join(seams, ","), "-argseams", strings.Join(argSeams, ","), "-preempt", strings.Join(preemptPkgs, ","), "-seamonly", strings.Join(seamOnlyPkgs, ","))
 		if err != nil {
 			cleanup(scratch)
 			infra("instrumenter failed (a construct it cannot handle, or the tree does not type-check): %v\n%s", err, out)
